@@ -107,7 +107,7 @@ PURE = re.compile(
     r"usize::|isize::|bool::|core::ops::|std::cmp::|core::panicking::assert_failed|<usize as |core::option::|core::result::|"
     r"Atomic::<.*>::(new|into_inner)|Unique::|alloc::vec::|alloc::raw_vec::|core::str::|<\[u8\]>::|slice::<impl \[u8\]>::(len|as_ptr|is_empty)|"
     r"<.*Range.* as |core::fmt::|<BytesMut as |<bytes::Bytes as (Deref|AsRef|Borrow)|Bytes::with_vtable|bytes::Bytes::len|"
-    r"std::ptr::|core::ptr::mut_ptr::|core::ptr::const_ptr::|core::ptr::non_null::|null_mut::<|null::<|without_provenance|core::clone::|<\*mut .* as |<\*const .* as )")
+    r"Arguments::|core::fmt::rt::|Argument::|<.* as (buf::buf_impl::)?Buf>::(remaining|chunk|has_remaining)$|<.* as (buf::buf_mut::)?BufMut>::remaining_mut$|BytesMut::(len|capacity|is_empty)$|bytes::Bytes::(len|is_empty)$|std::ptr::|core::ptr::mut_ptr::|core::ptr::const_ptr::|core::ptr::non_null::|null_mut::<|null::<|without_provenance|core::clone::|<\*mut .* as |<\*const .* as )")
 
 class Walker:
     def __init__(self, funcs, consts, max_paths=400):
@@ -439,7 +439,7 @@ class Walker:
         m = re.match(r"^assert\((.+?), .*\) -> \[success: (bb\d+)", ln, re.S)
         if m:
             return self.walk(f, fid, m.group(2), env, events, stack, depth, visits)
-        m = re.match(r"^(.*\)) -> (?:\[return: (bb\d+)(?:, unwind[^\]]*)?\]|unwind .*)$", ln, re.S)
+        m = re.match(r"^(.*\)) -> (?:\[return: (bb\d+)(?:, unwind[^\]]*)?\]|unwind .*|bb\d+)$", ln, re.S)
         if m:
             head, nxt = m.group(1), m.group(2)
             # split `dest = callee(args)`: the argument list is the LAST balanced (...) group
@@ -549,7 +549,7 @@ class Walker:
         if re.search(r"(^|::)abort$", c) or "process::abort" in c:
             self.finish(events, "abort")
             return
-        if re.match(r"^(core::panicking::|std::rt::|core::option::expect_failed|core::result::unwrap_failed|panic_advance|panic_does_not_fit|alloc::raw_vec::capacity_overflow|alloc::alloc::handle_alloc_error)", c):
+        if re.match(r"^(panic_fmt$|panic$|core::panicking::|std::rt::|begin_panic|core::option::expect_failed|core::result::unwrap_failed|panic_advance|panic_does_not_fit|alloc::raw_vec::capacity_overflow|alloc::alloc::handle_alloc_error)", c):
             self.finish(events, "panic")
             return
         # ---- ownership / memory models
